@@ -48,6 +48,15 @@ def _clean(t):
     return {k: v for k, v in t.items() if v}
 
 
+def _is_constantish(v):
+    if v.s:
+        return False
+    for p, ls in v.t.items():
+        if p != LEN and any(l[0] == "@" for l in ls):
+            return False
+    return True
+
+
 def scalar(labels):
     return Val({(): frozenset(labels)}) if labels else Val()
 
@@ -287,6 +296,10 @@ class Policy:
     """Hooks a rule module overrides."""
 
     propagate_kinds = ()
+    keep_empty_kinds = ()     # event kinds that are meaningful even with an empty label set
+    guarded_kinds = ()        # event kinds whose labels are extended by the labels of controlling branches
+    guard_mode = "all"        # 'all' controlling branches, or only the 'immediate' ones
+    implicit_flows = False    # values assigned under a branch also depend on the branch condition
 
     def param_init(self, view, i):
         """Initial value of parameter local i (1-based). Default: fully symbolic."""
@@ -518,6 +531,8 @@ class Engine:
         events = []
         ev_seen = set()
         blocks = view.blocks
+        switch_labels = {}
+        cur_ctrl = [None]
 
         def read_place(st, place, want_events, bi, idx):
             l, proj = place
@@ -575,11 +590,15 @@ class Engine:
             return read_place(st, op[1], want_events, bi, idx)
 
         def emit(kind, bi, idx, labels, info):
-            if not collect or not labels:
+            if not collect:
                 return
-            labels = pol.filter_event(kind, labels, info)
-            if not labels:
+            keep_empty = kind in pol.keep_empty_kinds
+            if not labels and not keep_empty:
                 return
+            labels = pol.filter_event(kind, labels, info) if labels else labels
+            if not labels and not keep_empty:
+                return
+            labels = frozenset(labels)
             k0 = (bid, kind)
             sink_local = (kind, bi, idx, info.get("what"))
             if sink_local in ev_seen:
@@ -591,12 +610,25 @@ class Engine:
             ev_seen.add(sink_local)
             events.append(Event(kind, None, labels, info, (bi, idx)))
 
+        def ctrl_val(bi):
+            if not pol.implicit_flows:
+                return None
+            ls = set()
+            for sb in view.value_controlling_switches(bi):
+                ls |= switch_labels.get(sb, EMPTY)
+            return scalar(frozenset(ls)) if ls else None
+
         def transfer_block(bi, st, want_events):
             bb = blocks[bi]
+            cv = ctrl_val(bi)
+            cur_ctrl[0] = cv
             for si, s in enumerate(bb["stmts"]):
                 if s[0] == "a":
                     place, rv = s[1], s[2]
                     val = eval_rv(st, rv, bi, si, want_events, s)
+                    if cv is not None and rv[0] not in ("ref", "rawptr") and _is_constantish(val):
+                        # a constant chosen under a branch (e.g. `return none`) varies with the branch condition
+                        val = v_join(val, cv)
                     write_place(st, place, val, bi, si, want_events)
                 elif s[0] == "sd":
                     pass
@@ -604,8 +636,13 @@ class Engine:
             k = t["k"]
             if k == "call":
                 do_call(bi, st, t, want_events)
+            elif k == "switch" and not want_events and pol.implicit_flows:
+                v = eval_op(st, t["op"], bi, "term", False)
+                nl = v_flat(v)
+                switch_labels[bi] = switch_labels.get(bi, EMPTY) | nl
             elif k == "switch" and want_events:
                 v = eval_op(st, t["op"], bi, "term", want_events)
+                switch_labels[bi] = v_flat(v) | (switch_labels.get(bi, EMPTY) if pol.implicit_flows else EMPTY)
                 emit("branch", bi, "term", v_flat(v), {"what": "switch", "span": t["s"], "macros": t["m"],
                                                         "targets": t["t"]})
             elif k == "assert" and want_events:
@@ -692,15 +729,16 @@ class Engine:
                     if want_events:
                         for (kind, sink), (ls, info) in summ.events.items():
                             sl = self.subst(ls, avs)
-                            if not sl:
+                            keep_empty = kind in pol.keep_empty_kinds
+                            if not sl and not keep_empty:
                                 continue
                             re = pol.on_call_event(cid, kind, sink, sl, info, view, bi, t)
                             if re is None:
                                 continue
                             sink2, info2 = re
-                            sl = pol.filter_event(kind, sl, info2)
-                            if sl:
-                                events.append(Event(kind, sink2, sl, info2, (bi, "term"),
+                            sl = pol.filter_event(kind, sl, info2) if sl else sl
+                            if sl or keep_empty:
+                                events.append(Event(kind, sink2, frozenset(sl), info2, (bi, "term"),
                                                     via=(mir.callee_name(t),)))
             if not handled:
                 m = pol.external(self, view, bi, t, argvals)
@@ -741,6 +779,8 @@ class Engine:
                                 if sl:
                                     events.append(Event(kind, sink, sl, info, (bi, "term"), via=(cid,)))
             ret = pol.post_call(self, view, bi, t, ret or Val(), argvals)
+            if cur_ctrl[0] is not None and _is_constantish(ret):
+                ret = v_join(ret, cur_ctrl[0])
             # apply
             for i, v in writes.items():
                 if i - 1 < len(args) and args[i - 1][0] in ("c", "m"):
@@ -812,6 +852,28 @@ class Engine:
         summ.ret = ret or Val()
         summ.outs = outs
         self.last_states = in_state
+        if collect and pol.guarded_kinds:
+            gcache = {}
+            for e in events:
+                if e.kind in pol.guarded_kinds and e.bb is not None and not e.info.get("cond"):
+                    bi = e.bb[0]
+                    g = gcache.get(bi)
+                    if g is None:
+                        gl = set()
+                        ctrl = []
+                        sw = view.immediate_controlling_switches(bi) if pol.guard_mode == "immediate" \
+                            else view.controlling_switches(bi)
+                        for sb in sw:
+                            ls = switch_labels.get(sb, EMPTY)
+                            ls = pol.filter_event("guard", ls, {}) if ls else ls
+                            ctrl.append(blocks[sb]["term"]["s"])
+                            if ls:
+                                gl |= ls
+                        g = (frozenset(gl), ctrl)
+                        gcache[bi] = g
+                    if g[1]:
+                        e.labels = frozenset(e.labels | g[0])
+                        e.info = dict(e.info, cond=True, guards=(e.info.get("guards", []) + g[1])[:6])
         if collect:
             # assign stable sink keys to local events and fold into the summary
             ords = {}
@@ -828,7 +890,7 @@ class Engine:
             for e in events:
                 if e.kind in pol.propagate_kinds:
                     sym = frozenset(l for l in e.labels if l.startswith("@"))
-                    if sym:
+                    if sym or e.kind in pol.keep_empty_kinds:
                         cur = summ.events.get((e.kind, e.sink))
                         if cur is None:
                             summ.events[(e.kind, e.sink)] = (sym, e.info)
